@@ -279,9 +279,9 @@ func c12(tier string, args []string) int {
 		"a restarted machine is brought up as cmd/airgapped does (NewMachine, password, InitKeys) and replay_operations_log is run exactly once; the operator uses the result file the replay re-creates for a logged operation and feeds the operation again otherwise",
 		"deal ciphertexts and response signatures are randomised inside kyber: deals are compared through their effect (every machine's final share and polynomial), responses by (dealer, verifier, status)",
 	}
-	cfgs := allNT(2, 3)
+	cfgs := allNT(2, 4)
 	if tier == "thorough" {
-		cfgs = allNT(2, 4)
+		cfgs = allNT(2, 5)
 	}
 	evals, distinct := 0, 0
 	var mu sync.Mutex
